@@ -30,8 +30,21 @@ def _check_chunk(cases):
                         m.aggregator = verif.aggregator.Quantile(q)
                     elif aggname is not None:
                         m.aggregator = verif.aggregator.get(aggname)
-                    got = m.compute_from_obs_fcst(obs.copy(), fcst.copy())
+                    o1, f1 = obs.copy(), fcst.copy()
+                    got = m.compute_from_obs_fcst(o1, f1)
                 n += 1
+                # the arrays handed in are the caller's (verif.data hands out its cached arrays): if a metric reorders or overwrites them,
+                # the scores computed from the same arrays afterwards must still equal their definitions on the values that were passed
+                if not (np.array_equal(o1, obs, equal_nan=True) and np.array_equal(f1, fcst, equal_nan=True)):
+                    for later in ("mae", "corr"):
+                        with quiet():
+                            again = verif.metric.get(later).compute_from_obs_fcst(o1, f1)
+                        if not expr.agrees(expr.ev(c["det"][later]), again):
+                            divs.append(("metric:%s:corrupts-later-scores" % name, False,
+                                         "%s on obs=%r fcst=%r left the arrays as obs=%r fcst=%r: %s computed from them afterwards is %r, expected %r"
+                                         % (name, c["o"], c["f"], o1.tolist(), f1.tolist(), later, float(again), expr.ev(c["det"][later])),
+                                         {"kind": "metric", "metric": name, "agg": aggname, "case": {"o": c["o"], "f": c["f"]}}))
+                            break
                 want = expr.ev(e)
                 if not expr.agrees(want, got):
                     known = False
